@@ -1,4 +1,4 @@
-import Lt.RS2
+import RedisGoModel.Raft.RS2
 /-! Prototype for C07: the order in which entries become committed respects real time. If an entry is already
     committed when a leader appends a new proposal, and that proposal is ever committed, it sits at a strictly larger
     index. Together with "applied exactly once, in index order" (Apply.lean) this is what makes the log order a
